@@ -9,7 +9,7 @@ ID = "C07"
 LEVEL = "exploration"
 CHUNK = 1
 CASE_TIMEOUT = 1500
-REQUIRED_COUNTERS = ["templates_recorded", "assignments_compared", "pruned_away_assignments_compared"]
+REQUIRED_COUNTERS = ["templates_recorded", "assignments_compared", "pruned_away_assignments_compared", "frame_values_compared"]
 RULE = ("single-Einsum specs of the small-spec family (bounds with several divisors, 2-3 memory levels, leak power, "
         "bits overrides); while the real mapper runs, wrappers on _make_tile_shapes / run_model record every pmapping "
         "template (its nodes with symbolic tile shapes), the symbolic dictionaries the model returned for it and the "
@@ -17,7 +17,9 @@ RULE = ("single-Einsum specs of the small-spec family (bounds with several divis
         "(compile_dict -> the shared lambdify cache, float32 arguments) and evaluated at (a) the rows the mapper kept and "
         "(b) further perfectly factorising assignments from an exhaustive chain enumeration (so pruned-away points are "
         "covered); the same assignment is substituted into the template, rebuilt as a plain tree and evaluated concretely "
-        "by evaluate_mapping; energy, latency and per-memory usage must agree (1e-5 relative: float32 formulas). "
+        "by evaluate_mapping; energy, latency and per-memory usage must agree (1e-5 relative: float32 formulas); for kept rows the "
+        "values the code itself wrote into the frame must agree with the concrete evaluation as well. One class has a single "
+        "latency-bearing component with a non-power-of-two throughput (plain-sum latency with non-dyadic rational coefficients). "
         "non-trivial = template with >= 2 free tile-shape symbols; distinct = (template, assignment)")
 ASSUMPTIONS = ["single-Einsum templates (a template of a multi-Einsum spec cannot be evaluated standalone through the public API)",
                "templates are visited in mapper order, so structurally equal formulas with different symbol lists share the lambdify cache as in production"]
@@ -36,8 +38,19 @@ def gen_cases(tier, seed):
         if rnd.random() < 0.4:
             for m in d["arch"]["mems"]:
                 m["leak"] = rnd.choice([0, 0.5])
-        cases.append({"class": d["class"].split("/")[0] + "/" + str(d["arch"]["levels"]) + "L", "desc": d,
-                      "metrics": rnd.choice(["ENERGY", "LATENCY", "ENERGY|LATENCY"]), "seed": rnd.randrange(2**31),
+        cls_extra = ""
+        if i % 3 == 1:
+            # ONE latency-bearing component with a throughput that is not a power of two (3, 5, 6, 7, 12): the latency
+            # formula then stays a plain sum with non-dyadic rational coefficients (1/3, 64/3) instead of a Max of several
+            which = rnd.randrange(len(d["arch"]["mems"]) + 1)
+            for k, m in enumerate(d["arch"]["mems"]):
+                tp = rnd.choice([3, 5, 6, 7, 12]) if k == which else "inf"
+                m["read_tp"], m["write_tp"] = tp, (tp if rnd.random() < 0.7 else "inf" if tp == "inf" else rnd.choice([3, 5, 7]))
+            d["arch"]["mac"]["tp"] = rnd.choice([3, 5, 6, 7]) if which == len(d["arch"]["mems"]) else "inf"
+            cls_extra = "/single-latency"
+        cases.append({"class": d["class"].split("/")[0] + "/" + str(d["arch"]["levels"]) + "L" + cls_extra, "desc": d,
+                      "metrics": rnd.choice(["ENERGY", "LATENCY", "ENERGY|LATENCY"]) if not cls_extra else rnd.choice(["LATENCY", "ENERGY|LATENCY"]),
+                      "seed": rnd.randrange(2**31),
                       "imperfect": False})
     return cases
 
@@ -139,6 +152,7 @@ def run_case(case):
             symbols, symbolic_df, per_mem, usage_df, _, actions_df = cur["model"]
             recorded.append({"tmpl": template_nodes(job.mapping), "symbols": list(symbols), "symbolic": dict(symbolic_df),
                              "per_mem": dict(per_mem), "rows": df[[s.name for s in symbols]].to_dict("records") if len(symbols) else [{}],
+                             "frame": df[[c for c in df.columns if c.startswith("Total" + H.SEP) and "mapping" not in c]].to_dict("records"),
                              "metrics": job.metrics})
         except Exception as ex:
             bump("recorder_failed:" + type(ex).__name__)
@@ -171,6 +185,7 @@ def run_case(case):
             bump("compile_failed:" + type(ex).__name__)
             continue
         kept = [{k: int(v) for k, v in r.items()} for r in rec["rows"][:6]]
+        frame_of = {tuple(sorted(k.items())): f for k, f in zip(kept, rec.get("frame", [])[:6])}
         extra = assignments(rec["tmpl"], d["workload"]["ranks"], 8, rnd)
         seen = set()
         for origin, asg in [("kept", a) for a in kept] + [("enumerated", a) for a in extra]:
@@ -221,6 +236,23 @@ def run_case(case):
                     continue
                 if mname in ru and not H.close(v, ru[mname], rel=1e-5, abs_tol=1e-6):
                     bad.append(["usage:" + mname, v, ru[mname]])
+            # the values the code itself wrote into the frame for this row (computed by ITS compiled formulas, after its
+            # own symbolic conversions) must agree with the concrete evaluation too
+            fr = frame_of.get(key) if origin == "kept" else None
+            if fr:
+                bump("frame_values_compared")
+                fbad = []
+                fe = fr.get("Total<SEP>energy")
+                if fe is None and "Total<SEP>dynamic_energy" in fr:
+                    fe = fr["Total<SEP>dynamic_energy"] + fr.get("Total<SEP>leak_energy", 0.0)
+                if fe is not None and not H.close(float(fe), float(ev.energy()), rel=1e-5, abs_tol=1e-6):
+                    fbad.append(["energy", float(fe), float(ev.energy())])
+                fl = fr.get("Total<SEP>latency")
+                if fl is not None and not H.close(float(fl), float(ev.latency()), rel=1e-5, abs_tol=1e-6):
+                    fbad.append(["latency", float(fl), float(ev.latency())])
+                if fbad:
+                    viol.append({"sig": "frame_value_differs_from_concrete:" + "+".join(sorted(b[0] for b in fbad)),
+                                 "witness": {"assignment": asg, "differences(frame, concrete)": fbad, "tree": tree, "ranks": d["workload"]["ranks"]}})
             if bad:
                 viol.append({"sig": "formula_differs_from_concrete:" + "+".join(sorted({b[0].split(":")[0] for b in bad})) + ":" + origin,
                              "witness": {"assignment": asg, "differences(formula, concrete)": bad, "tree": tree, "ranks": d["workload"]["ranks"]}})
